@@ -41,7 +41,8 @@ _DEPTH = re.compile(r"The depth of the complete state graph search is (\d+)")
 
 
 def _java_cmd(module_path, cfg, workers, metadir, extra, heap="2g", deque=False):
-    cmd = ["java", "-XX:+UseParallelGC", "-Xmx" + heap, "-Xss64m"]
+    gc = ["-XX:+UseSerialGC"] if workers == 1 else ["-XX:+UseParallelGC", "-XX:ParallelGCThreads=%d" % min(8, int(workers))]
+    cmd = ["java"] + gc + ["-XX:TieredStopAtLevel=4", "-Xmx" + heap, "-Xss64m"]
     if deque:
         cmd.append("-Dtlc2.tool.queue.IStateQueue=StateDeque")
     cmd += ["-cp", JAR, "tlc2.TLC", "-workers", str(workers), "-metadir", metadir,
